@@ -281,8 +281,12 @@ def _hist_case(draw, tier):
     cls = draw(st.sampled_from(["Base", "Base", "ClosedForm", "AltMin",
                                 "MinLeakage", "MaxSinr", "MMSE"]))
     cfg = draw(_cfg(cls, tier))
+    # P_inplace: the caller scales the power ARRAY it assigned earlier in
+    # place and assigns it again (a power sweep as users write it)
+    p_inplace = st.fixed_dictionaries(dict(
+        op=st.just("P_inplace"), factor=st.sampled_from([0.25, 4.0, 9.0])))
     setters = [_op_setP(), _op_setP(), _op_randomizeF(), _op_set_precoders(),
-               _op_set_rx()]
+               _op_set_rx(), p_inplace]
     first = [_op_randomizeF(), _op_set_precoders()]
     if cls != "Base":
         setters.append(_op_solve())
@@ -656,6 +660,20 @@ def _check_post(case, ctx):
     if cls == "MMSE":
         ctx.label("mmse_snr=" + _snr_class(cfg, H, P_exp))
     with _tagged(tags):
+        if case["seed"] % 3 == 0:
+            # the SAME solver and channel objects already solved another
+            # channel realisation (a Monte-Carlo loop re-randomises the
+            # channel object and calls solve() again): the solution must be
+            # the one of the CURRENT channel
+            ctx.label("solver_reused_after_channel_change")
+            big_now = np.array(ch.big_H, copy=True)
+            rs0 = np.random.RandomState(case["seed"])
+            other = _randc(rs0, *big_now.shape) * cfg["hscale"]
+            Nr_a = np.array(cfg["Nr"], dtype=int)
+            Nt_a = np.array(cfg["Nt"], dtype=int)
+            ch.init_from_channel_matrix(other, Nr_a, Nt_a, K)
+            solver.solve(_ns_arg(case["ns_form"], Ns), p_arg)
+            ch.init_from_channel_matrix(big_now, Nr_a, Nt_a, K)
         solver.solve(_ns_arg(case["ns_form"], Ns), p_arg)
         n_list = _postconditions(ctx, solver, cls, cfg, H, P_exp, tags)
         if n_list != Ns:
@@ -1046,9 +1064,25 @@ def _apply(ctx, solver, model, cls, op, tags, opi):
                 model.read_derived = True
         return
 
+    if kind == "P_inplace":
+        arr = getattr(model, "caller_P", None)
+        if arr is None:
+            ctx.label("P_inplace_skipped(no array assigned before)")
+            return
+        ctx.label("P_inplace")
+        arr *= float(op["factor"])
+        solver.P = arr
+        model.P = np.array(arr, dtype=float, copy=True)
+        model.fullF_explicit = None
+        model.note_change("P_setter", DERIVED)
+        return
+
     if kind == "setP":
         p_arg, P_exp = _p_arg(op["p_form"], op["pvals"], K)
         old = model.Pvec()
+        if op["p_form"] == "array" and isinstance(p_arg, np.ndarray) \
+                and p_arg.dtype.kind == "f":
+            model.caller_P = p_arg        # the caller keeps its own array
         solver.P = p_arg
         model.P = None if op["p_form"] == "none" else P_exp
         if np.array_equal(old, model.Pvec()):
